@@ -538,6 +538,9 @@ def seed_task(task, concurrency=2, dry_run=False, skip_geoms_for_last_levels=0,
               progress_logger=None, seed_progress=None, skip_uncached=False):
     if task.coverage is False:
         return
+    if not task.levels:
+        # none of the configured levels exists in this grid
+        return
     if task.refresh_timestamp is not None:
         task.tile_manager._expire_timestamp = task.refresh_timestamp
     task.tile_manager.minimize_meta_requests = False
